@@ -67,7 +67,7 @@ theorem cdiv_divisors_nonzero (yr yi : ℝ) (hy : ¬ (yr = 0 ∧ yi = 0)) :
 example : (cdiv (1 : ℝ) 0 2 1).1 * 2 - (cdiv (1 : ℝ) 0 2 1).2 * 1 = 1 := (cdiv_spec 1 0 2 1 (by norm_num)).1
 example : (cdiv (1 : ℝ) 0 1 2).1 * 1 - (cdiv (1 : ℝ) 0 1 2).2 * 2 = 1 := (cdiv_spec 1 0 1 2 (by norm_num)).1
 
-/-! ## symmetry test and dispatch (EigenValue.h:1079-1100) -/
+/-! ## symmetry test and dispatch (EigenValue.h:1280-1323) -/
 
 /-- the constructor's symmetry flag is the mathematical predicate "A equals its transpose" -/
 theorem symm_dispatch (n : Nat) (A : FMat ℝ) :
@@ -96,7 +96,7 @@ theorem dispatch_route (n : Nat) (A : FMat ℝ) :
 example : isSymmetric 2 (fun i j => ((i + j : Nat) : ℝ)) = true :=
   (symm_dispatch 2 _).mpr (fun i j _ _ => by simp [Nat.add_comm])
 
-/-! ## getD (EigenValue.h:1180-1199) -/
+/-! ## getD (EigenValue.h:1381-1400) -/
 
 /-- `getD` stays inside `D_` exactly when no positive imaginary part sits in the last position and
 no negative one in the first; otherwise it writes outside a row vector (undefined behaviour) -/
@@ -268,7 +268,7 @@ theorem blockEntry_real (n : Nat) (d e : Nat → ℝ) (he : ∀ i, i < n → e i
   · have : ¬ (j : Nat) = i := fun h => hij (Fin.ext h.symm)
     simp [toMatrix, blockEntry, Matrix.diagonal_apply_ne _ hij, this, h1, h2]
 
-/-! ## pow(A, double) and exp(A) (MatrixTools.h:514-545): the wrappers are right *given* a
+/-! ## pow(A, double) and exp(A) (MatrixTools.h:526-557): the wrappers are right *given* a
 correct decomposition and inverse -/
 
 theorem glue_dimension (f : ℝ → ℝ) (nr nc : Nat) (V W : FMat ℝ) (lam : Nat → ℝ) (h : nr ≠ nc) :
